@@ -9,6 +9,7 @@
 #include <setjmp.h>
 #include <intel-ipsec-mb.h>
 #include "ref.h"
+#include "ref_pon.h"
 
 /* ------------------------------------------------------------------ misc */
 #define ARRAY_SZ(a) (sizeof(a) / sizeof((a)[0]))
@@ -231,6 +232,8 @@ struct item {
         uint32_t c_off_bits, c_len_bits; /* bit-length ciphers */
         uint32_t h_off, h_len;
         uint32_t h_len_bits; /* bit-length MACs */
+        uint32_t pon_pli;    /* PON: payload length indicator put into the XGEM header */
+        int pon_crc_defined; /* PON: PLI > 4, CRC half of the tag is specified */
         uint32_t iv_len, aiv_len, aad_len, tag_len;
         int inplace;
         enum place pl;
